@@ -662,8 +662,12 @@ pub fn run(ctx: &mut Ctx) {
         for _ in 0..3 {
             ops.push(Op::rec(0x16, chunk.clone())); // refused: TooLarge, state unchanged
         }
-        // a foreign record and a nocopy while full
+        // foreign records while full: small, and so large that the size refusal would apply as well
+        // (the content type is checked first: Tag, not TooLarge)
         ops.push(Op::rec(0x17, vec![1, 2, 3]));
+        ops.push(Op::rec(0x17, chunk.clone()));
+        ops.push(Op::rec(0x15, chunk.clone()));
+        ops.push(Op::rec(0x18, r.bytes(16640)));
         ops.push(Op::NoCopy { ty: 0x16, ver: 0x0303, data: vec![0, 0, 0, 0], len: 4 });
         // the largest fragment that still fits (buffer stays below 10 MiB) and one byte too many
         let room = MAX - 1 - total;
